@@ -261,6 +261,7 @@ theorem initRest_inert {rest : List Tok} (h : InitRest rest) (k : Nat) : Inert W
 
 theorem pos_init (x : XExpr) (h : needParen x.prec initPrec initSide = false) : x.lvl ≤ 14 := by
   cases x with
+  | lit l => simp only [XExpr.prec, XExpr.lvl, litPrec] at h ⊢ <;> generalize litNegative l = b at h ⊢ <;> cases b <;> revert h <;> decide
   | un o _ => cases o <;> simp only [XExpr.prec, XExpr.lvl] at h ⊢ <;> revert h <;> decide
   | bin o _ _ => cases o <;> simp only [XExpr.prec, XExpr.lvl] at h ⊢ <;> revert h <;> decide
   | _ => simp only [XExpr.prec, XExpr.lvl] at h ⊢ <;> revert h <;> decide
